@@ -2,6 +2,7 @@
 import glob
 import json
 import os
+import re
 import time
 
 from vlib import common, archgen
@@ -89,12 +90,16 @@ class Runner:
         if impl == "SKIPPED":
             return None
         if impl.startswith("CRASH"):
-            if pc in ("idx", "multi+idx") and model.startswith("ok"):
+            # …or stopped with a reported error raised by *another* damaged byte of the same probe: the destructor
+            # still runs the fix-ups that were queued with the in-range index (crash inside the fix-up pass only)
+            fixup_pass = re.search(r"@(mfuse::)?(SafePtrBase::(AddReference|RemoveReference|InitSafePtr)|Archiver::Close)", impl)
+            if pc in ("idx", "multi+idx") and (model.startswith("ok") or (
+                    pc == "multi+idx" and fixup_pass and not model.startswith("UB:") and model != "InvalidObjectIndex")):
                 # the damaged index is still inside the object table: the format has no type information, a pointer
                 # then resolves to an object of another type (see notes/C11-findings.md F7)
                 return ("violation", "crash:index-damage-in-range",
-                        "an index field was changed to another index inside the table; the reader completed (model: %s) "
-                        "and a pointer resolved to an object of the wrong type: %s" % (model[:40], impl[6:]))
+                        "an index field was changed to another index inside the table; the reader went on (model: %s) "
+                        "and the fix-up pass resolved a pointer to an object of the wrong type: %s" % (model[:40], impl[6:]))
             return "violation", "crash:" + impl[6:], "the reader crashed / sanitizer report (%s)" % impl[6:]
         completed = impl.startswith("ok")
         if kind == "cut" and completed:
